@@ -1,14 +1,28 @@
 """Property-specific pieces of the driver (extra builds, post-processing, crash attribution)."""
-import json, os, subprocess
+import json, os, subprocess, sys
+
+REPO = "/repo"
 
 
 def setup(env, target):
-    pass
+    build_cli(env, target)
+
+
+def build_cli(env, target):
+    e = dict(env)
+    e["CARGO_TARGET_DIR"] = os.path.join(target, "cli")
+    r = subprocess.run(["cargo", "build", "--offline", "--manifest-path", os.path.join(REPO, "Cargo.toml"), "--bin", "muxide"], env=e, stdout=subprocess.PIPE, stderr=subprocess.STDOUT, text=True)
+    if r.returncode != 0:
+        sys.stdout.write(r.stdout[-3000:])
+        print("HARNESS-ERROR: building the muxide CLI failed")
+        sys.exit(2)
 
 
 def prepare(prop, tier, env, target):
     """Extra build steps needed before the shards run."""
-    return
+    if prop == "C20":
+        build_cli(env, target)
+    os.makedirs(os.path.join(target, "tmp"), exist_ok=True)
 
 
 def extra_args(prop, tier):
@@ -18,11 +32,42 @@ def extra_args(prop, tier):
 def case_entry(case):
     if not case:
         return "?"
-    k = list(case.keys())[0] if isinstance(case, dict) else str(case)
-    return k
+    if isinstance(case, dict):
+        k = list(case.keys())[0]
+        c = case[k]
+        if k == "Hist":
+            ops = c["h"]["ops"]
+            if ops:
+                last = ops[-1]
+                return "Hist:" + (list(last.keys())[0] if isinstance(last, dict) else str(last))
+        if k == "Cli":
+            return "Cli:" + c.get("cmd", "?")
+        return k
+    return str(case)
 
 
 def attribute_crash(vh, prop, tier, seed, crash, nshards, outdir):
+    """A shard died (abort / signal): find the case by re-running it one case at a time."""
+    s = crash["shard"]
+    k = crash.get("start", 0)
+    for _ in range(200000):
+        out = os.path.join(outdir, f"probe{s}.json")
+        r = subprocess.run([vh, "run", "--prop", prop, "--tier", tier, "--seed", str(seed), "--shard", str(s), "--nshards", str(nshards), "--out", out, "--start", str(k), "--max-cases", "256"], stdout=subprocess.PIPE, stderr=subprocess.PIPE, text=True)
+        if r.returncode == 0:
+            k += 256
+            if k > 10_000_000:
+                return None
+            continue
+        # narrow down inside this block
+        for j in range(k, k + 256):
+            r1 = subprocess.run([vh, "run", "--prop", prop, "--tier", tier, "--seed", str(seed), "--shard", str(s), "--nshards", str(nshards), "--out", out, "--start", str(j), "--max-cases", "1"], stdout=subprocess.PIPE, stderr=subprocess.PIPE, text=True)
+            if r1.returncode != 0:
+                idx = j * nshards + s
+                g = subprocess.run([vh, "gen", "--prop", prop, "--tier", tier, "--seed", str(seed), "--index", str(idx)], stdout=subprocess.PIPE, text=True)
+                case = json.loads(g.stdout)["case"]
+                sig = f"{prop}|abort|rc={r1.returncode}|{case_entry(case)}"
+                return {"sig": sig, "count": 1, "detail": f"process died (rc={r1.returncode}) while evaluating this case: {r1.stderr[-300:]}", "case": case}
+        return None
     return None
 
 
